@@ -50,6 +50,8 @@ fn crowded_recs(rng: &mut Rng, lang: &str, n: usize, corpus: &[Rec], distinct: b
     let mut ratings: Vec<usize> = (0..n).map(|i| if distinct { i * 5 + 1 + rng.below(5) } else { rng.below(3) }).collect();
     gen::scale_ratings(rng, &mut ratings);
     rng.shuffle(&mut ratings);
+    let odd = rng.chance(1, 3);
+    let mut idrng = rng.clone();
     (0..n)
         .map(|i| {
             let title = if rng.chance(1, 5) {
@@ -58,7 +60,7 @@ fn crowded_recs(rng: &mut Rng, lang: &str, n: usize, corpus: &[Rec], distinct: b
                 let m = rng.range(1, 3);
                 (0..m).map(|_| *rng.pick(&pool)).collect::<Vec<_>>().join(*rng.pick(&[" ", " ", "-", ", "]))
             };
-            (1000 + i, title, ratings[i])
+            (if odd { gen::odd_id(&mut idrng, i) } else { 1000 + i }, title, ratings[i])
         })
         .collect()
 }
